@@ -72,7 +72,13 @@ def gen_bloom_script(rng):
     cfgs = {'b0': c0, 'b1': c1}
     for b in ('b0', 'b1'):
         c = cfgs[b]
-        L.append('bloom new %s %s %d %d' % (b, cfg_hex(c), c[1], bits_from_formula(c[0], c[1], c[2], c[4])))
+        fb = bits_from_formula(c[0], c[1], c[2], c[4])
+        if fb > 64 and c[1] > 0 and rng.random() < 0.3:
+            # restored from a saved form whose bit count is not what today's formula gives (older versions sized the
+            # buffer iteratively, within 1 % of the formula): the authoritative length is the saved one
+            L.append('bloom newbits %s %s %d %d' % (b, cfg_hex(c), c[1], max(65, fb + rng.choice([-1, 1]) * rng.randrange(1, max(2, fb // 100)))))
+        else:
+            L.append('bloom new %s %s %d %d' % (b, cfg_hex(c), c[1], fb))
     keys = {'b0': [], 'b1': []}
     allkeys = []
     nops = rng.randrange(8, 40)
@@ -244,7 +250,7 @@ def oracle(lines, out, spec=None):
         if t[0] != 'bloom':
             continue
         op = t[1]
-        if op == 'new':
+        if op in ('new', 'newbits'):
             keys[t[2]] = set(); offl.discard(t[2])
             if o != 'bits %s' % t[5]:
                 fails.append('line %d: bit count differs from the formula model: %s vs %s' % (i, o, t[5]))
